@@ -106,6 +106,22 @@ func (W) Exec(p *world.Plan, env *world.Env) {
 		return
 	}
 	hmin, hmax, _ := stub.HolderBounds()
+	// the reserve's true extent comes from the symbol table, not from goom's own bookkeeping
+	const phSym = "github.com/tencent/goom/internal/bytecode/stub.Placeholder.abi0"
+	if s := env.Image.Lookup(phSym); s != 0 {
+		e := s + env.Image.Extent(s) // up to the next symbol: the routine's code plus its own padding
+		if hmin < s || hmax > e || hmin > hmax {
+			env.Res.At = "before the run"
+			env.FailNoUnwind("space/reserve-bounds", "goom's reserve [%#x,%#x) is not inside the placeholder routine [%#x,%#x) the linker laid out for it", hmin, hmax, s, e)
+			return
+		}
+		env.T("reserve %d of %d", hmax-hmin, e-s)
+		hmin, hmax = s, e // every later check uses the linker's bounds
+	} else {
+		env.Res.At = "before the run"
+		env.FailNoUnwind("harness/symbol", "symbol %s not found", phSym)
+		return
+	}
 	type rec struct {
 		r        region
 		err      error
